@@ -71,6 +71,44 @@ theorem c14_ipv4_fragment_guard_drop (env : Env) (m : Machine) (lk : Link) (byte
   rw [if_neg a, if_pos b]
   rfl
 
+/-- IPv4, fix F-C14-S3: a frame that ends before the total length of its datagram (a datagram cut
+    short in transit) is dropped the same way, whatever it carries -/
+theorem c14_ipv4_truncated_frame_drop (env : Env) (m : Machine) (lk : Link) (bytes : Bytes)
+    (hd : Ipv4.Header) (h : Ipv4.fromBytes env.ck bytes = .ok hd) (hl : bytes.length < hd.totalLength) :
+    ipv4Demux env m lk bytes =
+      .ok { machine := m, ret := .error .header, effects := [], calls := [pidIpv4] } := by
+  obtain ⟨hihl, _, htl, _, _⟩ := ipv4_ok_facts h
+  unfold ipv4Demux
+  rw [h]
+  dsimp only
+  have a : ¬ hd.totalLength < hd.ihl * guardWord := by
+    rw [hihl]; show ¬ hd.totalLength < 5 * 4; omega
+  rw [if_neg a]
+  by_cases hg : fragmentBeyondMax hd = true
+  · rw [if_pos hg]; rfl
+  · rw [if_neg hg, if_pos hl]; rfl
+
+/-- the IPv4 decoder reads the 20 octets of the header and nothing behind them -/
+theorem ipv4_fromBytes_append {ck : Bool} {bs : Bytes} {hd : Ipv4.Header} (pad : Bytes)
+    (h : Ipv4.fromBytes ck bs = .ok hd) : Ipv4.fromBytes ck (bs ++ pad) = .ok hd := by
+  obtain ⟨b0, b1, b2, b3, b4, b5, b6, b7, b8, b9, b10, b11, b12, b13, b14, b15, b16, b17, b18, b19,
+    rest, rfl, _⟩ := Ipv4.fromBytes_ok_inv h
+  simp only [Ipv4.fromBytes, nextU8, nextU16, nextU32, List.cons_append] at h ⊢
+  exact h
+
+/-- IPv4, fix F-C14-S3: link padding behind the datagram never matters — a frame that holds its
+    whole datagram is answered exactly as the frame that ends where the total length says (same
+    result, same machine, same effects, same payload handed up), whatever follows -/
+theorem c14_ipv4_padding_ignored (env : Env) (m : Machine) (lk : Link) (bytes pad : Bytes)
+    (hd : Ipv4.Header) (h : Ipv4.fromBytes env.ck bytes = .ok hd) (hl : hd.totalLength ≤ bytes.length) :
+    ipv4Demux env m lk (bytes ++ pad) = ipv4Demux env m lk bytes := by
+  unfold ipv4Demux
+  rw [ipv4_fromBytes_append pad h, h]
+  dsimp only
+  have t1 : ¬ bytes.length < hd.totalLength := by omega
+  have t2 : ¬ (bytes ++ pad).length < hd.totalLength := by rw [List.length_append]; omega
+  rw [if_neg t1, if_neg t2, List.take_append_of_le_length hl]
+
 /-- UDP: the decoder rejects ⇒ `Udp::demux` returns `Err(Header)`; machine unchanged, nothing
     done, no application entered -/
 theorem c14_udp_demux_drop (env : Env) (m : Machine) (lk : Link) (ih : Ipv4.Header) (msg : Bytes)
@@ -115,14 +153,26 @@ structure ReachesTransport (env : Env) (m : Machine) (bytes : Bytes) (hd : Ipv4.
   whole : (Elvis.Frag.isLast hd.flags && hd.fragmentOffset == 0) = true
   bound : ipv4Upstream m.dm hd.destination (protoNumber hd.protocol) = some up
   present : up ∈ m.dm.protocols
+  /-- the frame is not shorter than the datagram it announces (fix F-C14-S3) -/
+  arrived : hd.totalLength ≤ bytes.length
+
+/-- what `Ipv4::demux` hands up: the octets of the datagram (the first `total length` octets of the
+    frame — link padding behind them is cut off, fix F-C14-S3) behind the 20-octet header -/
+def datagramBody (hd : Ipv4.Header) (bytes : Bytes) : Bytes := (bytes.take hd.totalLength).drop 20
+
+/-- a frame that is exactly its datagram: nothing is cut off -/
+theorem datagramBody_exact (hd : Ipv4.Header) (bytes : Bytes) (h : hd.totalLength = bytes.length) :
+    datagramBody hd bytes = bytes.drop 20 := by
+  unfold datagramBody
+  rw [h, List.take_length]
 
 /-- the part of `Ipv4::demux` in front of the transport protocol, for a whole datagram -/
 theorem ipv4Demux_reaches {env : Env} {m : Machine} {lk : Link} {bytes : Bytes} {hd : Ipv4.Header} {up : Pid}
     (r : ReachesTransport env m bytes hd up) :
     ipv4Demux env m lk bytes =
-      if up = pidUdp then entered pidIpv4 (udpDemux env m lk (some hd) (bytes.drop 20))
-      else if up = pidTcp then entered pidIpv4 (tcpDemux env m lk (some hd) (bytes.drop 20))
-      else .ok { machine := m, ret := .ok (), effects := [.handUp up (bytes.drop 20)], calls := [pidIpv4] } := by
+      if up = pidUdp then entered pidIpv4 (udpDemux env m lk (some hd) (datagramBody hd bytes))
+      else if up = pidTcp then entered pidIpv4 (tcpDemux env m lk (some hd) (datagramBody hd bytes))
+      else .ok { machine := m, ret := .ok (), effects := [.handUp up (datagramBody hd bytes)], calls := [pidIpv4] } := by
   obtain ⟨hihl, hlen, htl, htl2, _⟩ := ipv4_ok_facts r.decodes
   have hw : hd.fragmentOffset = 0 := by
     have := r.whole; simp only [Bool.and_eq_true, beq_iff_eq] at this; exact this.2
@@ -136,23 +186,25 @@ theorem ipv4Demux_reaches {env : Env} {m : Machine} {lk : Link} {bytes : Bytes} 
     rw [hihl, hw]
     show decide (0 * 8 + (hd.totalLength - 5 * 4) > 65535 - 5 * 4) = false
     simp; omega
-  have c : ¬ bytes.length < hd.ihl * ipStripFactor := by
-    rw [hihl]; show ¬ bytes.length < 5 * 4; omega
-  rw [if_neg a, b, if_neg (by simp), if_neg c, r.bound]
+  have t : ¬ bytes.length < hd.totalLength := by have := r.arrived; omega
+  have c : ¬ (bytes.take hd.totalLength).length < hd.ihl * ipStripFactor := by
+    rw [hihl, List.length_take]; show ¬ min hd.totalLength bytes.length < 5 * 4; have := r.arrived; omega
+  rw [if_neg a, b, if_neg (by simp), if_neg t, if_neg c, r.bound]
   dsimp only
   have hs : hd.ihl * ipStripFactor = 20 := by rw [hihl]; rfl
   rw [hs]
-  obtain ⟨rr, hr⟩ := fresh_receive_whole (fragHdr hd) (bytes.drop 20) r.whole
+  obtain ⟨rr, hr⟩ := fresh_receive_whole (fragHdr hd) ((bytes.take hd.totalLength).drop 20) r.whole
   rw [hr]
   dsimp only
   rw [if_pos r.present]
+  rfl
 
 /-- a frame whose IPv4 header is fine and whose UDP header does not decode: `PciSession::receive`
     returns `Err(Demux(Header))`, the machine is unchanged, nothing is done, and the `demux`
     functions entered are exactly `Ipv4::demux`, `Udp::demux` -/
 theorem c14_udp_drop_through_stack (env : Env) (m : Machine) (lk : Link) (bytes : Bytes) (hd : Ipv4.Header)
     (r : ReachesTransport env m bytes hd pidUdp) (e : Fail Udp.ParseError)
-    (h : Udp.fromBytes env.ck (bytes.drop 20) (bytes.drop 20).length hd.source hd.destination = .error e) :
+    (h : Udp.fromBytes env.ck (datagramBody hd bytes) (datagramBody hd bytes).length hd.source hd.destination = .error e) :
     receive env m lk ⟨pidIpv4, bytes⟩ =
       .ok { machine := m, ret := .error .header, effects := [], calls := [pidIpv4, pidUdp] } := by
   unfold receive
@@ -163,7 +215,7 @@ theorem c14_udp_drop_through_stack (env : Env) (m : Machine) (lk : Link) (bytes 
     TCB, no binding changes, no reset is sent -/
 theorem c14_tcp_drop_through_stack (env : Env) (m : Machine) (lk : Link) (bytes : Bytes) (hd : Ipv4.Header)
     (r : ReachesTransport env m bytes hd pidTcp) (e : Fail Codec.Tcp.ParseError)
-    (h : Codec.Tcp.fromBytes env.ck (bytes.drop 20) (bytes.drop 20).length hd.source hd.destination = .error e) :
+    (h : Codec.Tcp.fromBytes env.ck (datagramBody hd bytes) (datagramBody hd bytes).length hd.source hd.destination = .error e) :
     receive env m lk ⟨pidIpv4, bytes⟩ =
       .ok { machine := m, ret := .error .header, effects := [], calls := [pidIpv4, pidTcp] } := by
   unfold receive
@@ -270,19 +322,21 @@ theorem ipv4Demux_quiet (env : Env) (m : Machine) (lk : Link) (bytes : Bytes)
     · split at h
       · cases h; exact quiet_dropped _ _ _
       · split at h
-        · cases h
+        · cases h; exact quiet_dropped _ _ _
         · split at h
-          · cases h; exact quiet_dropped _ _ _
+          · cases h
           · split at h
-            · cases h
-            · cases h; intro e he; cases he
+            · cases h; exact quiet_dropped _ _ _
             · split at h
-              · split at h
-                · exact quiet_entered (fun r' hr => udpDemux_quiet _ _ _ _ _ r' hr) h
-                · split at h
-                  · exact quiet_entered (fun r' hr => tcpDemux_quiet _ _ _ _ _ r' hr) h
-                  · cases h; intro e he; cases he
               · cases h
+              · cases h; intro e he; cases he
+              · split at h
+                · split at h
+                  · exact quiet_entered (fun r' hr => udpDemux_quiet _ _ _ _ _ r' hr) h
+                  · split at h
+                    · exact quiet_entered (fun r' hr => tcpDemux_quiet _ _ _ _ _ r' hr) h
+                    · cases h; intro e he; cases he
+                · cases h
 
 /-- WHATEVER error `PciSession::receive` returns for a frame — unknown protocol, header error at
     any layer, missing context, no binding, no session, failed reply — the machine (all binding
@@ -395,8 +449,11 @@ theorem ipv4Demux_total (env : Env) (m : Machine) (lk : Link) (bytes : Bytes) (h
     by_cases hg : fragmentBeyondMax hd = true
     · rw [if_pos hg]; exact ⟨_, rfl⟩
     · rw [if_neg hg]
-      have c : ¬ bytes.length < hd.ihl * ipStripFactor := by
-        rw [hihl]; show ¬ bytes.length < 5 * 4; omega
+      by_cases ht : bytes.length < hd.totalLength
+      · rw [if_pos ht]; exact ⟨_, rfl⟩
+      rw [if_neg ht]
+      have c : ¬ (bytes.take hd.totalLength).length < hd.ihl * ipStripFactor := by
+        rw [hihl, List.length_take]; show ¬ min hd.totalLength bytes.length < 5 * 4; omega
       rw [if_neg c]
       cases hu : ipv4Upstream m.dm hd.destination (protoNumber hd.protocol) with
       | none => exact ⟨_, rfl⟩
@@ -410,7 +467,7 @@ theorem ipv4Demux_total (env : Env) (m : Machine) (lk : Link) (bytes : Bytes) (h
             exact hg (decide_eq_true hc)
           show hd.fragmentOffset * 8 + (hd.totalLength - 20) ≤ 65515
           omega
-        obtain ⟨rr, res, hr⟩ := fresh_receive_ok (fragHdr hd) (bytes.drop (hd.ihl * ipStripFactor))
+        obtain ⟨rr, res, hr⟩ := fresh_receive_ok (fragHdr hd) ((bytes.take hd.totalLength).drop (hd.ihl * ipStripFactor))
           hihl htl hguard
         rw [hr]
         cases res with
@@ -644,6 +701,13 @@ def goodSyn : Bytes :=
 def absurdFragment : Bytes :=
   [0x45, 0, 0xff, 0xff, 0, 0, 0x1f, 0xff, 30, 17, 0, 0, 10, 0, 0, 2, 10, 0, 0, 1, 1, 2, 3]
 
+/-- F-C14-S3 witness: total length 29 (one payload octet), UDP length 10, and a second "payload" octet
+    behind the end of the IPv4 datagram.  Before the fix `Ipv4::demux` handed all ten octets up, the
+    UDP length matched them and the application received `[0xab, 0xcd]` -/
+def udpLenBeyondDatagram : Bytes :=
+  [0x45, 0, 0, 29, 0, 0, 0, 0, 30, 17, 0, 0, 10, 0, 0, 2, 10, 0, 0, 1,
+   0x17, 0x70, 0x13, 0x88, 0, 10, 0, 0, 0xab, 0xcd]
+
 /-- positive control: the good datagram reaches the recorder, with its payload and endpoints -/
 example : (receive env m lk ⟨pidIpv4, goodUdp⟩).toOption.map (fun r => (r.ret, r.calls, r.effects.length)) =
     some (.ok (), [pidIpv4, pidUdp], 1) := by decide
@@ -656,18 +720,33 @@ example : (receive env m lk ⟨pidIpv4, goodUdp⟩).toOption.map (fun r => r.eff
     some [some { app := 10, payload := [0xab], loc := ⟨167772161, 5000⟩,
                  rem := ⟨167772162, 6000⟩, slot := 0 }] := by decide +kernel
 
+/-- F-C14-S3 regression: the UDP length field claims an octet beyond the IPv4 datagram: dropped at
+    the UDP layer (`Err(Header)`), no application entered -/
+theorem c14_udp_length_beyond_datagram_regression :
+    (receive env m lk ⟨pidIpv4, udpLenBeyondDatagram⟩).toOption.map (fun r => (r.ret, r.calls, r.effects.length)) =
+      some (.error .header, [pidIpv4, pidUdp], 0) := by decide
+
+/-- link padding behind a good datagram is cut off: the recorder gets the datagram's one octet -/
+example : (receive env m lk ⟨pidIpv4, goodUdp ++ [0, 0, 0xee]⟩).toOption.map (fun r => r.effects.map delivered) =
+    some [some { app := 10, payload := [0xab], loc := ⟨167772161, 5000⟩,
+                 rem := ⟨167772162, 6000⟩, slot := 0 }] := by decide +kernel
+
+/-- the good datagram cut short by one octet is dropped by `Ipv4::demux` itself -/
+example : (receive env m lk ⟨pidIpv4, goodUdp.take 28⟩).toOption.map (fun r => (r.ret, r.calls)) =
+    some (.error .header, [pidIpv4]) := by decide
+
 /-- the UDP decoder rejects the second frame, and the theorem's premises hold for it -/
 example : ∃ hd e, ReachesTransport env m badUdpLen hd pidUdp ∧
-    Udp.fromBytes env.ck (badUdpLen.drop 20) (badUdpLen.drop 20).length hd.source hd.destination = .error e := by
+    Udp.fromBytes env.ck (datagramBody hd badUdpLen) (datagramBody hd badUdpLen).length hd.source hd.destination = .error e := by
   refine ⟨{ ihl := 5, tos := 0, totalLength := 29, identification := 0, fragmentOffset := 0, flags := 0,
             ttl := 30, protocol := 17, checksum := 0, source := 167772162, destination := 167772161 },
-          .err .lengthMismatch, ⟨by decide, by decide, by decide, by decide, by decide⟩, by decide⟩
+          .err .lengthMismatch, ⟨by decide, by decide, by decide, by decide, by decide, by decide⟩, by decide⟩
 
 example : ∃ hd e, ReachesTransport env m badTcpOffset hd pidTcp ∧
-    Codec.Tcp.fromBytes env.ck (badTcpOffset.drop 20) (badTcpOffset.drop 20).length hd.source hd.destination = .error e := by
+    Codec.Tcp.fromBytes env.ck (datagramBody hd badTcpOffset) (datagramBody hd badTcpOffset).length hd.source hd.destination = .error e := by
   refine ⟨{ ihl := 5, tos := 0, totalLength := 44, identification := 0, fragmentOffset := 0, flags := 0,
             ttl := 30, protocol := 6, checksum := 0, source := 167772162, destination := 167772161 },
-          .err .unexpectedOptions, ⟨by decide, by decide, by decide, by decide, by decide⟩, by decide⟩
+          .err .unexpectedOptions, ⟨by decide, by decide, by decide, by decide, by decide, by decide⟩, by decide⟩
 
 /-- the SYN creates a session (so `tcpDemux` is not the constant "drop" function) -/
 example : (receive env m lk ⟨pidIpv4, goodSyn⟩).toOption.map
